@@ -218,10 +218,19 @@ pub fn c05_worker(ctx: &mut Ctx) {
         ctx.absorb(r);
     }
     ctx.flush();
+    // The pool's threads keep their cached databases alive as long as the pool exists.
+    drop(pool);
+    crate::execchecks::drop_thread_dbs();
     // ---- W2: every corelib test has the same verdict under every configuration.
     let w2_cfgs: Vec<Config> = match ctx.tier {
         Tier::Quick => vec![cfgs[0], cfgs[1], cfgs[2]],
-        Tier::Thorough => cfgs.iter().filter(|c| c.linear).cloned().collect(),
+        // Each configuration costs a full analysis, lowering and CASM of the corelib with its
+        // tests (several GB while it lives): six of them, spread over the lattice.
+        Tier::Thorough => {
+            let linear: Vec<Config> = cfgs.iter().filter(|c| c.linear).cloned().collect();
+            let step = (linear.len() / 6).max(1);
+            linear.into_iter().step_by(step).take(6).collect()
+        }
     };
     let mut verdicts: Vec<(Config, BTreeMap<String, (Option<bool>, String)>)> = vec![];
     for cfg in &w2_cfgs {
